@@ -690,6 +690,10 @@ pixman_composite_glyphs (pixman_op_t            op,
 {
     pixman_image_t *mask;
 
+    /* A request that cannot be drawn is still a use of the images */
+    _pixman_image_validate (src);
+    _pixman_image_validate (dest);
+
     if (!(mask = pixman_image_create_bits (mask_format, width, height, NULL, -1)))
 	return;
 
